@@ -1,4 +1,5 @@
-\* big: 3 calls x 2 connections, 1 drop, 1 noise packet (reduced interleaving RedSpec); 16 workers; not part of the tiers' time budget
+\* big: 3 calls x 2 connections, 1 drop, 1 noise packet (reduced interleaving RedSpec, VIEW, SYMMETRY, backlog <= 2):
+\* measured 13,994,240 distinct / 65,954,834 generated states, depth 41, 7 min 54 s with 12 workers; opt-in for the thorough tier (C12_BIG=1)
 CONSTANTS
   Calls = {c1, c2, c3}
   NConns = 2
